@@ -27,6 +27,7 @@ def run(rep):
     dwtchecks.synthesis_2d(rep, fnd, table, calls2.records, "C10")
     dwtchecks.numeric_inverse_vs_pywt(rep, "C10", rep.tier)
     stagetrace.validate_dwt1(rep, "C10", rep.tier, "DWT1DInverse")
+    stagetrace.validate_dwt2(rep, "C10", rep.tier, "DWTInverse")
     rep.assumptions += ["TLC bounds in coverage.tlc_runs", "pywt.idwt with indicator taps pins Ref"]
 
 
